@@ -1065,7 +1065,7 @@ def derived_mechanism(step, status, fn_written):
   call ended / whether it notified + where the written location is."""
   if not fn_written:
     return mechanism(step, status, True)
-  how = ('rejected-call' if status == 'raise' else
+  how = (mechanism(step, status, True) if status == 'raise' else
          'notify-suppressed' if H.notify_suppressed(step) else 'notified-write')
   return how + ('@functor-arg' if any(d for _, d in fn_written)
                 else '@below-functor-arg')
